@@ -506,8 +506,19 @@ pub fn exec(line: &str, rec: &mut Recorder) {
         }
         Ok(None) => rec.stat("skipped.unparsable-case"),
         Err(p) => {
-            let idx = rec.case(line.to_string(), format!("panic {p}"));
-            rec.fail(idx, format!("panic: {p}"), "");
+            // `vkp` lines have no model side; open known finding: decode_public_key() debug_assert!s that the
+            // DNSKEY's algorithm is supported — in a build with debug assertions a DNSKEY + RRSIG pair of an
+            // unsupported algorithm panics the validator instead of being Bogus
+            let unsupported_key_alg = t.get(0) == Some(&"vkp")
+                && t.get(3).and_then(|k| k.split(';').nth(2)).and_then(|a| a.parse::<u8>().ok()).map(|a| !Algorithm::from_u8(a).is_supported()).unwrap_or(false);
+            let class = if unsupported_key_alg && p.contains("algorithm.is_supported()") { "debug-assert-unsupported-algorithm" } else { "" };
+            let out = if t[0] == "vkp" { "~".to_string() } else { format!("panic {p}") };
+            if out == "~" {
+                rec.impl_only += 1;
+            }
+            let idx = rec.case(line.to_string(), out);
+            rec.stat(&format!("op.{}", t[0]));
+            rec.fail(idx, format!("panic: {p}"), class);
         }
     }
 }
@@ -517,6 +528,16 @@ fn simple(line: String, out: String) -> Option<Out> {
 }
 
 fn exec_inner(t: &[&str]) -> Option<Out> {
+    // `hq QNAME <h arguments>`: the `h` step with the RRset arriving in the response to the query `QNAME DNSKEY`
+    if t.len() > 2 && t[0] == "hq" {
+        let mut v = vec!["h"];
+        v.extend_from_slice(&t[2..]);
+        return exec_with(&v, Some(t[1]));
+    }
+    exec_with(t, None)
+}
+
+fn exec_with(t: &[&str], orig: Option<&str>) -> Option<Out> {
     match t {
         ["serial", a, b] => {
             let (x, y): (u32, u32) = (a.parse().ok()?, b.parse().ok()?);
@@ -568,7 +589,8 @@ fn exec_inner(t: &[&str]) -> Option<Out> {
                 sc.answers.insert((name_tok(&name_h.to_lowercase()), ty), ans);
                 sc.answers.insert((name_tok(&s.signer.to_name()?.to_lowercase()), 48), vec![k.to_record()?]);
             }
-            let handle = DnssecDnsHandle::with_trust_anchor(up.clone(), Arc::new(ta));
+            let ta = Arc::new(ta);
+            let handle = DnssecDnsHandle::with_trust_anchor(up.clone(), ta.clone());
             CLOCK.store(s.inc.wrapping_add(1) as u64, AtOrd::SeqCst);
             let rt = tokio::runtime::Builder::new_current_thread().enable_all().build().ok()?;
             let mut opts = DnsRequestOptions::default();
@@ -621,7 +643,13 @@ fn exec_inner(t: &[&str]) -> Option<Out> {
                 let res = rt.block_on(async move { h2.send(rq).first_answer().await });
                 let secure = res.as_ref().map(|r| r.answers.iter().any(|a| a.proof == Proof::Secure)).unwrap_or(false);
                 outcome.push(if secure { "then-secure" } else { "then-not-secure" });
-                if !secure {
+                // what a handle without any history says about this answer (e.g. a DS RRset signed by its own owner is
+                // never Secure)
+                let fresh_handle = DnssecDnsHandle::with_trust_anchor(up.clone(), ta.clone());
+                let rq = DnsRequest::from_query(query.clone(), DnsRequestOptions::default());
+                let res = rt.block_on(async move { fresh_handle.send(rq).first_answer().await });
+                let expected = res.as_ref().map(|r| r.answers.iter().any(|a| a.proof == Proof::Secure)).unwrap_or(false);
+                if !secure && expected {
                     fails.push(("a Net error of the DNSKEY lookup was cached: the correctly signed answer is not Secure afterwards on the same handle".into(), String::new()));
                 }
             }
@@ -635,6 +663,21 @@ fn exec_inner(t: &[&str]) -> Option<Out> {
             if got != ref_key_tag(&b) {
                 o.fails.push(("key tag differs from RFC 4034 Appendix B".into(), String::new()));
             }
+            // the flag accessors the validator and the signer consult (RFC 4034 §2.1.1, RFC 5011 §3), and the
+            // constructor from the three booleans
+            if b.len() >= 4 {
+                let flags = u16::from_be_bytes([b[0], b[1]]);
+                let pk = PublicKeyBuf::new(b[4..].to_vec(), Algorithm::from_u8(b[3]));
+                let k = DNSKEY::with_flags(flags, pk.clone());
+                let (z, sep, rev) = (flags & 0x0100 != 0, flags & 0x0001 != 0, flags & 0x0080 != 0);
+                if (k.zone_key(), k.secure_entry_point(), k.revoke()) != (z, sep, rev) || k.is_key_signing_key() != (z && sep && !rev) || k.flags() != flags {
+                    o.fails.push((format!("DNSKEY flag accessors disagree with the flags field {flags:#06x}"), String::new()));
+                }
+                let k2 = DNSKEY::new(z, sep, rev, pk);
+                if k2.flags() != flags & 0x0181 || (k2.zone_key(), k2.secure_entry_point(), k2.revoke()) != (z, sep, rev) {
+                    o.fails.push((format!("DNSKEY::new({z}, {sep}, {rev}) has flags {:#06x}", k2.flags()), String::new()));
+                }
+            }
             Some(o)
         }
         ["attl", exp, ottl, rttl, now] => {
@@ -644,6 +687,20 @@ fn exec_inner(t: &[&str]) -> Option<Out> {
             let r = Record::from_rdata(Name::root(), rttl, RData::A(hickory_proto::rr::rdata::A::new(1, 2, 3, 4)));
             let got = rrsig.authenticated_ttl(&r, now);
             simple(format!("attl {exp} {ottl} {rttl} {now}"), got.to_string())
+        }
+        ["vkp", rest @ ..] => {
+            // implementation only: a `vk` line of the unsupported-algorithm family (DNSKEY and RRSIG name the same
+            // unsupported algorithm, everything else fits): never Secure, never a panic
+            let mut v: Vec<&str> = vec!["vk"];
+            v.extend_from_slice(rest);
+            let mut o = exec_inner(&v)?;
+            if o.out.starts_with("ok S") {
+                o.fails.push(("Secure with a key of an unsupported algorithm".into(), String::new()));
+            }
+            o.stats.push(format!("vkp.{}", o.out.split(' ').take(2).collect::<Vec<_>>().join("-")));
+            o.line = format!("vkp {}", o.line.strip_prefix("vk ")?);
+            o.out = "~".into();
+            Some(o)
         }
         ["vkx", expect, rest @ ..] => {
             // an external vector (tools/gen_rsa_vectors.py): a `vk` line whose verdict must be Secure (EXPECT = OK)
@@ -784,7 +841,16 @@ fn exec_inner(t: &[&str]) -> Option<Out> {
             let records: Vec<Record> = recs_n.iter().map(|r| r.to_record()).collect::<Option<Vec<_>>>()?;
             let srecs: Vec<Record> = sigs.iter().map(|s| s.to_record()).collect::<Option<Vec<_>>>()?;
             let name_h = name_n.to_name()?;
-            let query = Query::new(name_h.clone(), RecordType::from(ty));
+            // the original query: the RRset's own name and type, or (`hq`) a DNSKEY query whose response also
+            // carries this RRset
+            let orig_n: Option<N> = match orig {
+                Some(q) => Some(N::parse(q)?),
+                None => None,
+            };
+            let query = match &orig_n {
+                Some(q) => Query::new(q.to_name()?, RecordType::DNSKEY),
+                None => Query::new(name_h.clone(), RecordType::from(ty)),
+            };
             let ck = hex(&cache_key_stream(&query, &name_h, RecordType::from(ty), &records, &srecs));
             let orcs = if ks.is_empty() {
                 "-".to_string()
@@ -793,7 +859,11 @@ fn exec_inner(t: &[&str]) -> Option<Out> {
             };
             let keys_tok = if net_error { "!".to_string() } else if ks.is_empty() { "-".to_string() } else { ks.iter().map(|k| format!("{};S", k.tok())).collect::<Vec<_>>().join("|") };
             let line = format!(
-                "h {clock} {inst} {ck} {keys_tok} {} {} {ty} {orcs}{}",
+                "{} {clock} {inst} {ck} {keys_tok} {} {} {ty} {orcs}{}",
+                match &orig_n {
+                    Some(q) => format!("hq {}", q.tok()),
+                    None => "h".to_string(),
+                },
                 sigs.iter().map(|s| s.tok()).collect::<Vec<_>>().join("|"),
                 name_n.tok(),
                 recs_n.iter().map(|r| format!(" {}", r.tok().unwrap_or_default())).collect::<String>()
@@ -804,9 +874,19 @@ fn exec_inner(t: &[&str]) -> Option<Out> {
                 let owner_l = name_n.lower_labels();
                 let in_zone = signer_l.len() <= owner_l.len() && signer_l.iter().rev().zip(owner_l.iter().rev()).all(|(a, b2)| a == b2);
                 let ds_self = ty == 43 && !owner_l.is_empty() && signer_l == owner_l && s.signer.fqdn == name_n.fqdn;
-                in_zone && !ds_self && i <= 8
+                // "Break verification cycle": the DNSKEY query for this signer is the original query again
+                let cycle = orig_n.as_ref().map(|q| same_name_ci(q, &s.signer)).unwrap_or(false);
+                in_zone && !ds_self && i <= 8 && !cycle
             };
-            let first_cand: Option<usize> = sigs.iter().enumerate().find(|(i, s)| is_candidate(*i, s)).map(|(i, _)| i);
+            // select_ok: a candidate whose DNSKEY lookup ends in an error (upstream failure, or no DNSKEY at the
+            // signer's name in the response) passes the turn to the next one
+            let lookup_fails = |s: &S| net_error || !ks.iter().any(|k| same_name_ci(&k.owner, &s.signer));
+            let first_cand: Option<usize> = sigs
+                .iter()
+                .enumerate()
+                .find(|(i, s)| is_candidate(*i, s) && !lookup_fails(s))
+                .or_else(|| sigs.iter().enumerate().find(|(i, s)| is_candidate(*i, s)))
+                .map(|(i, _)| i);
             HIST.with(|hcell| {
                 let mut hb = hcell.borrow_mut();
                 let h = hb.as_mut()?;
@@ -828,6 +908,12 @@ fn exec_inner(t: &[&str]) -> Option<Out> {
                         let signer = s.signer.to_name()?;
                         sc.answers.insert((name_tok(&signer.to_lowercase()), 48), ks.iter().map(|k| k.to_record()).collect::<Option<Vec<_>>>()?);
                     }
+                    if let Some(q) = &orig_n {
+                        // the response to the original DNSKEY query: the keys at that name, then the RRset and its RRSIGs
+                        let mut full: Vec<Record> = ks.iter().filter(|k| same_name_ci(&k.owner, q)).map(|k| k.to_record()).collect::<Option<Vec<_>>>()?;
+                        full.extend(sc.answers.remove(&(name_tok(&name_h.to_lowercase()), ty)).unwrap_or_default());
+                        sc.answers.insert((name_tok(&q.to_name()?.to_lowercase()), 48), full);
+                    }
                 }
                 h.up.dnskey_queries.store(0, AtOrd::SeqCst);
                 FAIL_DNSKEY.store(net_error, AtOrd::SeqCst);
@@ -835,7 +921,8 @@ fn exec_inner(t: &[&str]) -> Option<Out> {
                 let handle = h.handle.clone();
                 let res = h.rt.block_on(async move { handle.send(req).first_answer().await });
                 FAIL_DNSKEY.store(false, AtOrd::SeqCst);
-                let fresh = h.up.dnskey_queries.load(AtOrd::SeqCst) > 0;
+                // (the original query of an `hq` step is itself a DNSKEY query)
+                let fresh = h.up.dnskey_queries.load(AtOrd::SeqCst) > orig_n.is_some() as usize;
                 let msg: Message = match res {
                     Ok(r) => r.into_message(),
                     Err(NetError::Dns(DnsError::Nsec { response, .. })) => response.into_message(),
@@ -853,6 +940,8 @@ fn exec_inner(t: &[&str]) -> Option<Out> {
                             marked.push(sig_outs.len());
                         }
                         sig_outs.push(format!("{} {}", proof_tok(a.proof), a.ttl));
+                    } else if orig_n.is_some() && a.record_type() == RecordType::DNSKEY {
+                        // the DNSKEY RRset the original query asked for (verify_dnskey_rrset: C07)
                     } else {
                         proofs.push(a.proof);
                         ttls.push(a.ttl);
@@ -2091,6 +2180,107 @@ fn gen_history(r: &mut Rng, kind: u64) -> Option<Vec<String>> {
             lines.push(h_line(t0, 0, &keys, &b.s, &b.name, b.ty, &[])?);
             lines.push(h_line(t0, 0, &keys, &b.s, &b.name, b.ty, &b.recs)?);
         }
+        22 => {
+            // select_ok over the candidates: an RRSIG naming an ancestor (or the owner) at which upstream has no
+            // DNSKEY is a candidate whose lookup ends in an error — the turn passes to the next candidate; when
+            // every lookup fails the RRset is Bogus and nothing is cached
+            resign(&mut b);
+            let good = b.s.clone();
+            let mut alt = b.s.signer.clone();
+            if alt.labels.is_empty() {
+                alt = b.name.clone();
+            } else {
+                alt.labels.remove(0);
+            }
+            if same_name_ci(&alt, &b.s.signer) {
+                return None;
+            }
+            let mut failing = good.clone();
+            failing.signer = alt;
+            failing.exp = failing.exp.wrapping_add(100_000);
+            failing.ottl = 900_000;
+            let bytes = failing.ref_case(&b.name, 1, &b.recs).ref_signed_data()?;
+            failing.sig = sign_with(b.ki, &bytes);
+            let mut failing2 = failing.clone();
+            failing2.tag = failing2.tag.wrapping_add(1);
+            match r.below(4) {
+                0 => {
+                    for _ in 0..2 {
+                        lines.push(h_line_multi(t0 as u64, 0, &keys, &[failing.clone(), good.clone()], &b.name, b.ty, &b.recs)?);
+                    }
+                }
+                1 => {
+                    lines.push(h_line_multi(t0 as u64, 0, &keys, &[failing.clone(), failing2.clone(), good.clone()], &b.name, b.ty, &b.recs)?);
+                    lines.push(h_line_multi(t0.wrapping_add(life + 5) as u64, 0, &keys, &[failing.clone(), failing2.clone(), good.clone()], &b.name, b.ty, &b.recs)?);
+                }
+                2 => {
+                    // every lookup fails: not cached; the key then appears at that name too
+                    for _ in 0..2 {
+                        lines.push(h_line_multi(t0 as u64, 0, &keys, &[failing.clone(), failing2.clone()], &b.name, b.ty, &b.recs)?);
+                    }
+                    let mut k2 = b.k.clone();
+                    k2.owner = failing.signer.clone();
+                    lines.push(h_line_multi(t0 as u64, 0, &[b.k.clone(), k2], &[failing.clone(), failing2.clone()], &b.name, b.ty, &b.recs)?);
+                }
+                _ => {
+                    lines.push(h_line_multi(t0 as u64, 0, &keys, &[good.clone(), failing.clone()], &b.name, b.ty, &b.recs)?);
+                    lines.push(h_line_multi(t0 as u64, 0, &keys, &[failing.clone()], &b.name, b.ty, &b.recs)?);
+                }
+            }
+        }
+        23 => {
+            // "Break verification cycle": the RRset arrives in the response to the query `SIGNER DNSKEY`; the DNSKEY
+            // lookup its RRSIG needs would be that query again — the RRSIG is skipped (Bogus, no lookup), also when
+            // it is genuine; an RRSIG of another signer in the same response is evaluated as usual
+            resign(&mut b);
+            let good = b.s.clone();
+            let to_hq = |l: String, q: &N| l.replacen("h ", &format!("hq {} ", q.tok()), 1);
+            let mut q = b.s.signer.clone();
+            if r.chance(1, 3) {
+                // letter case of the query name does not matter
+                for l in q.labels.iter_mut() {
+                    l.make_ascii_uppercase();
+                }
+            }
+            match r.below(3) {
+                0 => {
+                    lines.push(to_hq(h_line_multi(t0 as u64, 0, &keys, std::slice::from_ref(&good), &b.name, b.ty, &b.recs)?, &q));
+                    // the same RRset asked for directly is Secure
+                    lines.push(h_line_multi(t0 as u64, 0, &keys, std::slice::from_ref(&good), &b.name, b.ty, &b.recs)?);
+                    lines.push(to_hq(h_line_multi(t0 as u64, 0, &keys, std::slice::from_ref(&good), &b.name, b.ty, &b.recs)?, &q));
+                }
+                1 => {
+                    // a second RRSIG by an ancestor zone whose key is served: that one is looked up and verifies
+                    let mut alt = b.s.signer.clone();
+                    if alt.labels.is_empty() {
+                        return None;
+                    }
+                    alt.labels.remove(0);
+                    let mut anc = good.clone();
+                    anc.signer = alt.clone();
+                    let bytes = anc.ref_case(&b.name, 1, &b.recs).ref_signed_data()?;
+                    anc.sig = sign_with(b.ki, &bytes);
+                    let mut k2 = b.k.clone();
+                    k2.owner = alt;
+                    let sigs = if r.chance(1, 2) { vec![good.clone(), anc.clone()] } else { vec![anc.clone(), good.clone()] };
+                    for _ in 0..2 {
+                        lines.push(to_hq(h_line_multi(t0 as u64, 0, &[b.k.clone(), k2.clone()], &sigs, &b.name, b.ty, &b.recs)?, &q));
+                    }
+                }
+                _ => {
+                    // the original DNSKEY query is for another name: no cycle, the RRSIG is evaluated
+                    let mut other = b.k.clone();
+                    other.owner = c05::nm("other.test.");
+                    if same_name_ci(&other.owner, &b.s.signer) {
+                        return None;
+                    }
+                    let q2 = other.owner.clone();
+                    for _ in 0..2 {
+                        lines.push(to_hq(h_line_multi(t0 as u64, 0, &[b.k.clone(), other.clone()], std::slice::from_ref(&good), &b.name, b.ty, &b.recs)?, &q2));
+                    }
+                }
+            }
+        }
         _ => {
             // wrong key first (Bogus is cached), then the right key; and the reverse
             resign(&mut b);
@@ -2109,8 +2299,9 @@ fn block(cfg: &str, lines: Vec<String>) -> Vec<String> {
     let mut tas: Vec<String> = vec![];
     for l in &lines {
         let t: Vec<&str> = l.split_whitespace().collect();
-        if t.len() > 4 && t[4] != "-" && t[4] != "!" {
-            for k in t[4].split('|') {
+        let at = if t.first() == Some(&"hq") { 5 } else { 4 };
+        if t.len() > at && t[at] != "-" && t[at] != "!" {
+            for k in t[at].split('|') {
                 let f: Vec<&str> = k.split(';').collect();
                 let e = format!("{}:{}", f[2], f[3]);
                 if !tas.contains(&e) {
@@ -2197,6 +2388,12 @@ pub fn run(o: &Opts, rec: &mut Recorder) {
         exec(&format!("sadd {x} {y}"), rec);
     }
     for k in all_keys() {
+        exec(&format!("tag {}", hex(&k.rdata())), rec);
+    }
+    // every combination of the three defined flag bits (zone key, revoke, secure entry point), and all bits set
+    for flags in [0u16, 1, 0x80, 0x81, 0x100, 0x101, 0x180, 0x181, 0xFFFF, 0xFE7E] {
+        let mut k = real_key(0);
+        k.flags = flags;
         exec(&format!("tag {}", hex(&k.rdata())), rec);
     }
     // edge paths of DnssecDnsHandle::send around a correctly signed answer (implementation only)
@@ -2323,6 +2520,23 @@ pub fn run(o: &Opts, rec: &mut Recorder) {
             }
         }
     }
+    // unsupported-algorithm family (implementation only): DNSKEY and RRSIG name the same algorithm that the
+    // crypto backend does not support (RSAMD5, DSA, ECC-GOST, ED448, private, unassigned); all other checks pass
+    {
+        let mut ur = Rng::new(6065);
+        for _ in 0..o.n(2, 20) {
+            for alg in [1u8, 3, 6, 12, 16, 253, 255] {
+                let mut b = gen_base_with(&mut ur, true);
+                b.k.alg = alg;
+                b.s.alg = alg;
+                b.s.tag = ref_key_tag(&b.k.rdata());
+                if let Some(l) = vk_line(&b, Proof::Secure) {
+                    rec.stat(&format!("unsupported-algorithm.vkp.{alg}"));
+                    exec(&format!("vkp {}", l.strip_prefix("vk ").unwrap()), rec);
+                }
+            }
+        }
+    }
     // key-flag family: every flag value × {the zone's own DNSKEY RRset, a data RRset} through the hook,
     // and the DNSKEY RRset of the root zone through DnssecDnsHandle::send (implementation only)
     {
@@ -2364,11 +2578,11 @@ pub fn run(o: &Opts, rec: &mut Recorder) {
             exec(&l, rec);
         }
     }
-    for i in 0..o.n(1320, 44_000) {
+    for i in 0..o.n(1440, 48_000) {
         let mut rr = r.fork();
-        match catch(move || gen_history(&mut rr, i as u64 % 22)) {
+        match catch(move || gen_history(&mut rr, i as u64 % 24)) {
             Ok(Some(h)) => {
-                rec.stat(&format!("history.kind.{}", i % 22));
+                rec.stat(&format!("history.kind.{}", i % 24));
                 for l in h {
                     exec(&l, rec);
                 }
